@@ -1,14 +1,31 @@
 /-
   C17 — Learner calls leave no temporary files behind and never touch their inputs.
 
-  Effect model: world = set of existing paths; every temporary entry a learner
-  creates (chunk files, the spooled event file of generator input since the
-  repair of F7) lives below a directory managed by `bracket`
-  (= `with tempfile.TemporaryDirectory(...)`).  partial: that the real bodies
-  only write below their directory, that `shutil.rmtree` and `Pool.terminate`
-  behave as documented, and that the input file is opened read-only are decided
-  by the differential run (directory listings and sha256 before/after every
-  call of the C01/C05 campaigns).
+  Effect model: world = set of existing paths (`World`), or — for the
+  "inputs untouched" clause — paths with their contents (`FS`: directory, or
+  file with its bytes).  Every temporary entry a learner creates (chunk files,
+  the spooled event file of generator input since the repair of F7) lives below
+  a directory managed by `bracket` (= `with tempfile.TemporaryDirectory(...)`).
+
+  ASSUMPTIONS (not proved; observed by the differential run: directory listing
+  and sha256 of every file before/after every call of the C01/C05 campaigns):
+    * `OnlyBelow d body` / `OnlyBelowC d body` for the REAL bodies
+      (`create_binary_event_files`, the learning kernels, `io.events_to_file`):
+      they create, overwrite and remove only entries at or below their
+      temporary directory, and open the input event file read-only.  It is a
+      hypothesis of `fs_clean` / `fs_clean_siblings` / `inputs_unchanged`, and is
+      PROVED only for the modelled bodies (`chunkBody`, `opsBody`: arbitrary
+      sequences of writes and removals of files in the directory).
+    * `shutil.rmtree` (called by `TemporaryDirectory.__exit__`) succeeds and
+      removes exactly the directory and everything below it (`rmtree`); and
+      `Pool.terminate` leaves no worker writing after the `with` block.
+    * the fresh directory name does not exist before (`hfresh`; `mkdtemp`).
+  Layout of generator input (ndl.py:132-142, 217 after 895aaf2): the spool
+  directory and the chunk directory are both created with
+  `dir=temporary_directory`, i.e. they are SIBLINGS; the second `with` is nested
+  in time only.  `fs_clean_siblings` is the theorem for that layout
+  (`fs_clean_nested`, about a chunk directory below the spool directory, is
+  true but is not the code's layout; it is kept as a lemma).
 -/
 import PyndlProofs.Effects
 
@@ -24,23 +41,6 @@ theorem fs_clean (d : Path) (body : Path → World → World × Exit) (hb : Only
     (w : World) (hfresh : ∀ p ∈ w, below d p = false) (p : Path) :
     p ∈ (bracket d body w).1 ↔ p ∈ w :=
   bracket_clean d body hb w hfresh p
-
-/-- the exception (or the return) of the body is what the caller sees -/
-theorem exit_preserved (d : Path) (body : Path → World → World × Exit) (w : World) :
-    (bracket d body w).2 = (body d (d :: w)).2 :=
-  bracket_exit d body w
-
-/-- generator input: the spool directory around the learner's own chunk
-    directory is clean as well (nested brackets) -/
-theorem fs_clean_nested (d₁ d₂ : Path) (body : Path → World → World × Exit)
-    (hb : OnlyBelow d₂ body) (hsub : below d₁ d₂ = true) :
-    OnlyBelow d₁ (fun _ w => bracket d₂ body w) :=
-  bracket_nested d₁ d₂ body hb hsub
-
-/-- chunk files are created below the temporary directory:
-    `os.path.join(binary_path, "events_0_%i.dat" % ii)` -/
-theorem chunk_paths_inside (d : Path) (name : String) : below d (d ++ [name]) = true := by
-  simp [below]
 
 /-- the pinned tree's spooling before the repair (F7) leaks: the spool file
     created in the system temp directory outside any bracket is still there
@@ -70,11 +70,165 @@ theorem generator_call_clean (s d : Path) (created : List String) (e : Exit) (w 
     (p ∈ (generatorCall s d created e w).1 ↔ p ∈ w) ∧ (generatorCall s d created e w).2 = e :=
   ⟨generatorCall_clean s d created e w hs hd p, generatorCall_exit s d created e w⟩
 
+/-- **generator input, the code's layout** (siblings): an outer temporary
+    directory `s`; a first step that works only below `s` and may raise
+    (spooling the generator into `s/events.tab.gz`); then, only if it returned,
+    a second bracket for a directory `d` that is neither below nor above `s`
+    (both are children of `temporary_directory`) around a body that works only
+    below `d`.  For every pair of exits the set of existing paths afterwards is
+    the set before. -/
+theorem fs_clean_siblings (s d : Path) (first body : Path → World → World × Exit)
+    (hf : OnlyBelow s first) (hb : OnlyBelow d body)
+    (hsd : below s d = false) (hds : below d s = false) (w : World)
+    (hs : ∀ p ∈ w, below s p = false) (hd : ∀ p ∈ w, below d p = false) (p : Path) :
+    p ∈ (bracket s (fun s w => seqBody (first s) (bracket d body) w) w).1 ↔ p ∈ w :=
+  bracket_siblings_clean s d first body hf hb hsd hds w hs hd p
+
+/-- **generator input, concretely, spooling may raise**: whatever files
+    `io.events_to_file` created in the spool directory before it returned or
+    raised, whatever chunk files the learner then created and however it ended,
+    the set of existing paths is the one before the call, and the caller sees
+    the spooling exception, else the learner's exit. -/
+theorem generator_call_clean_any_spool (s d : Path) (spooled : List String) (spoolExit : Exit)
+    (created : List String) (e : Exit) (w : World)
+    (hsd : below s d = false) (hds : below d s = false)
+    (hs : ∀ p ∈ w, below s p = false) (hd : ∀ p ∈ w, below d p = false) (p : Path) :
+    (p ∈ (generatorCallS s d spooled spoolExit created e w).1 ↔ p ∈ w) ∧
+    (generatorCallS s d spooled spoolExit created e w).2
+      = (match spoolExit with | .raised => .raised | .returned => e) :=
+  ⟨generatorCallS_clean s d spooled spoolExit created e w hsd hds hs hd p,
+    generatorCallS_exit s d spooled spoolExit created e w⟩
+
+/-! ## inputs untouched (worlds with contents) -/
+
+/-- **fs_clean with contents.** If the body leaves everything outside its
+    directory as it was (`OnlyBelowC`: the assumption on the real bodies) and
+    nothing existed at or below the fresh directory, then after the call EVERY
+    path has the node it had before: same existence, same kind, and for a file
+    the same bytes — for every exit. -/
+theorem fs_clean_contents (d : Path) (body : Path → FS → FS × Exit) (hb : OnlyBelowC d body)
+    (fs : FS) (hfresh : ∀ p, below d p = true → fs.get p = none) (p : Path) :
+    (bracketC d body fs).1.get p = fs.get p :=
+  bracketC_clean d body hb fs hfresh p
+
+/-- **inputs_unchanged (path input).** The input event file — any file `inp`
+    with bytes `bytes` that exists before the call — has exactly those bytes
+    after a learner call whose body is any sequence of writes and removals of
+    files in the temporary directory followed by a return or a raise.  (For
+    the modelled bodies; that the real bodies are of this kind is the
+    assumption `OnlyBelowC`, see the file header.) -/
+theorem inputs_unchanged (d : Path) (ops : List Op) (e : Exit) (fs : FS)
+    (hfresh : ∀ p, below d p = true → fs.get p = none)
+    (inp : Path) (bytes : List UInt8) (hin : fs.get inp = some (.file bytes)) :
+    (bracketC d (opsBody ops e) fs).1.get inp = some (.file bytes) ∧
+    (bracketC d (opsBody ops e) fs).2 = e := by
+  refine ⟨?_, rfl⟩
+  rw [bracketC_clean d _ (opsBody_onlyBelowC ops e d) fs hfresh inp, hin]
+
+/-- **inputs_unchanged (generator input, sibling directories).** Likewise for
+    the spool directory `s` (operations `spoolOps`, exit `spoolExit`) followed —
+    if spooling returned — by the learner in the sibling directory `d`: every
+    path, in particular every pre-existing file, has afterwards the node it
+    had before. -/
+theorem inputs_unchanged_generator (s d : Path) (spoolOps : List Op) (spoolExit : Exit)
+    (ops : List Op) (e : Exit) (fs : FS)
+    (hsd : below s d = false) (hds : below d s = false)
+    (hs : ∀ p, below s p = true → fs.get p = none) (hd : ∀ p, below d p = true → fs.get p = none)
+    (p : Path) :
+    (generatorCallC s d spoolOps spoolExit ops e fs).1.get p = fs.get p :=
+  bracketC_siblings_clean s d (opsBody spoolOps spoolExit) (opsBody ops e)
+    (opsBody_onlyBelowC spoolOps spoolExit s) (opsBody_onlyBelowC ops e d) hsd hds fs hs hd p
+
 /-! non-vacuity: a body that creates two chunk files and raises -/
 example :
     let d : Path := ["tmp", "pyndl123"]
     let body : Path → World → World × Exit := fun d w => ((d ++ ["events_0_0.dat"]) :: (d ++ ["events_0_1.dat"]) :: w, .raised)
     bracket d body [["tmp"], ["data", "events.tab.gz"]] = ([["tmp"], ["data", "events.tab.gz"]], .raised) := by
   decide +kernel
+
+
+
+/-! non-vacuity of `generator_call_clean_any_spool` and `fs_clean_siblings`:
+    spool directory `tmp/pyndlA`, chunk directory `tmp/pyndlB` (siblings); the
+    hypotheses hold for the world `[tmp, data/events.tab.gz]`, and both exits
+    of the spooling step are evaluated -/
+example :
+    let s : Path := ["tmp", "pyndlA"]
+    let d : Path := ["tmp", "pyndlB"]
+    let w : World := [["tmp"], ["data", "events.tab.gz"]]
+    below s d = false ∧ below d s = false ∧ (∀ p ∈ w, below s p = false) ∧ (∀ p ∈ w, below d p = false) ∧
+    generatorCallS s d ["events.tab.gz"] .returned ["events_0_0.dat", "events_0_1.dat"] .raised w = (w, .raised) ∧
+    generatorCallS s d ["events.tab.gz"] .raised ["events_0_0.dat"] .returned w = (w, .raised) ∧
+    generatorCallS s d ["events.tab.gz"] .returned ["events_0_0.dat"] .returned w = (w, .returned) := by
+  decide +kernel
+
+/-! non-vacuity of `inputs_unchanged` / `inputs_unchanged_generator`: the input
+    file `data/events.tab.gz` holds the bytes `1f 8b 08`; the body writes two
+    chunk files, overwrites one, removes one, and raises; a file named like the
+    input INSIDE the temporary directory is written as well.  All hypotheses
+    hold and the world afterwards is literally the world before. -/
+def exFS : FS := [(["tmp"], .dir), (["data"], .dir), (["data", "events.tab.gz"], .file [0x1f, 0x8b, 0x08])]
+
+def exOps : List Op :=
+  [.write "events_0_0.dat" [1, 2, 3], .write "events_0_1.dat" [4], .write "events_0_0.dat" [9],
+   .remove "events_0_1.dat", .write "events.tab.gz" [0]]
+
+example :
+    (∀ p, below ["tmp", "pyndlB"] p = true → exFS.get p = none) ∧
+    exFS.get ["data", "events.tab.gz"] = some (.file [0x1f, 0x8b, 0x08]) ∧
+    bracketC ["tmp", "pyndlB"] (opsBody exOps .raised) exFS = (exFS, .raised) ∧
+    -- inside the bracket the files really are there:
+    (runOps ["tmp", "pyndlB"] exOps (exFS.put ["tmp", "pyndlB"] .dir)).get ["tmp", "pyndlB", "events_0_0.dat"]
+      = some (.file [9]) ∧
+    generatorCallC ["tmp", "pyndlA"] ["tmp", "pyndlB"] [.write "events.tab.gz" [0x1f, 0x8b]] .returned
+      exOps .raised exFS = (exFS, .raised) := by
+  refine ⟨?_, by decide +kernel, by decide +kernel, by decide +kernel, by decide +kernel⟩
+  intro p hp
+  -- every entry of `exFS` has a first component list that `["tmp","pyndlB"]` is not a prefix of
+  have h : ∀ x ∈ exFS, below ["tmp", "pyndlB"] x.1 = false := by decide +kernel
+  unfold FS.get
+  cases hf : List.find? (fun x => x.1 == p) exFS with
+  | none => rfl
+  | some x =>
+    have hx := List.mem_of_find?_eq_some hf
+    have hxp : x.1 = p := by simpa using List.find?_some hf
+    rw [← hxp, h x hx] at hp
+    cases hp
+
+example := inputs_unchanged ["tmp", "pyndlB"] exOps .raised exFS
+  (by
+    intro p hp
+    have h : ∀ x ∈ exFS, below ["tmp", "pyndlB"] x.1 = false := by decide +kernel
+    unfold FS.get
+    cases hf : List.find? (fun x => x.1 == p) exFS with
+    | none => rfl
+    | some x =>
+      have hx := List.mem_of_find?_eq_some hf
+      have hxp : x.1 = p := by simpa using List.find?_some hf
+      rw [← hxp, h x hx] at hp
+      cases hp)
+  ["data", "events.tab.gz"] [0x1f, 0x8b, 0x08] (by decide +kernel)
+
+/-! ### lemmas (not property theorems) -/
+
+/-- (definitional) the exception (or the return) of the body is what the caller sees -/
+theorem exit_preserved (d : Path) (body : Path → World → World × Exit) (w : World) :
+    (bracket d body w).2 = (body d (d :: w)).2 :=
+  bracket_exit d body w
+
+/-- (not the code's layout) a bracket for a directory `d₂` BELOW `d₁` works only
+    below `d₁`.  The review found the former docstring ("generator input")
+    misleading: in `ndl.ndl` the chunk directory is a sibling of the spool
+    directory, see `fs_clean_siblings`. -/
+theorem fs_clean_nested (d₁ d₂ : Path) (body : Path → World → World × Exit)
+    (hb : OnlyBelow d₂ body) (hsub : below d₁ d₂ = true) :
+    OnlyBelow d₁ (fun _ w => bracket d₂ body w) :=
+  bracket_nested d₁ d₂ body hb hsub
+
+/-- (definitional) chunk files are created below the temporary directory:
+    `os.path.join(binary_path, "events_0_%i.dat" % ii)` -/
+theorem chunk_paths_inside (d : Path) (name : String) : below d (d ++ [name]) = true := by
+  simp [below]
+
 
 end Pyndl.C17
